@@ -207,13 +207,8 @@ BREAKS = ["opacity-256", "name-256", "version-3", "version-0", "version-70000", 
 
 def run(ctx: core.Run):
     t0 = time.time()
-<<<<<<< HEAD
     tables = ctx.regenerate(extract_c01.gen_codec) or {}     # a reshaped source is a broken tie, never exit 2
-    ctx.prove(["PsdVerif.Props.C01"])
-=======
-    tables = extract_c01.gen_codec(ctx)
     ctx.prove(["PsdVerif.Props.C01", *__import__("desc_common").regenerate(ctx)])
->>>>>>> b-desc
     ctx.trusted_base += [
         "Lean 4.33 kernel; axioms allowed: propext, Classical.choice, Quot.sound (audited per theorem)",
         "Model/Codec.lean, Model/Psd.lean: hand transliteration of utils.py and the skeleton classes "
